@@ -13,7 +13,14 @@ from cv import algos, graphs  # noqa: E402
 from cv.core import VERIF, Check  # noqa: E402
 from cayleypy import Predictor  # noqa: E402
 
-THEOREMS = []
+THEOREMS = [
+    "Cv.hamming_spec",
+    "Cv.hamming_self",
+    "Cv.hamming_zero_iff",
+    "Cv.hamming_le",
+    "Cv.predictBatched_eq",
+    "Cv.predictBatched_eq_of_append",
+]
 
 
 def run_case(ck: Check, case: dict):
